@@ -8,14 +8,20 @@ TIER=${1:-quick}; [ $# -gt 0 ] && shift
 NAMES="$@"; [ -z "$NAMES" ] && NAMES=$(ls seeded)
 for name in $NAMES; do
   id=$(echo "$name" | cut -d- -f1)
+  # a seed may name the checks that are expected to see it (one per line / blank separated); default: the check of its property
+  ids="$id"; [ -f seeded/$name/checks.txt ] && ids=$(cat seeded/$name/checks.txt)
   D=$(mktemp -d /var/tmp/seedv_XXXXXX)
   git -C /repo archive HEAD | tar -x -C "$D"
   if ! ( cd "$D" && git init -q . && git apply --whitespace=nowarn /verif/seeded/$name/patch.diff ); then
     echo "$name PATCH-DOES-NOT-APPLY"; rm -rf "$D"; continue
   fi
-  out=$(FA_REPO="$D" VERIF_NO_EVIDENCE=1 timeout 7200 ./check $id --tier $TIER 2>&1); rc=$?
-  nv=$(echo "$out" | grep -c "^VIOLATION property=$id")
-  sig=$(echo "$out" | grep "signature:" | sort -u | head -3 | sed 's/ *signature: //' | tr '\n' '|')
-  if [ $rc -eq 1 ] && [ $nv -gt 0 ]; then echo "$name CAUGHT by $id ($TIER) violations=$nv sig=$sig"; else echo "$name MISSED by $id ($TIER) rc=$rc"; fi
+  res="MISSED"; who=""
+  for cid in $ids; do
+    out=$(FA_REPO="$D" VERIF_NO_EVIDENCE=1 timeout 7200 ./check $cid --tier $TIER 2>&1); rc=$?
+    nv=$(echo "$out" | grep -c "^VIOLATION property=$cid")
+    sig=$(echo "$out" | grep "signature:" | sort -u | head -3 | sed 's/ *signature: //' | tr '\n' '|')
+    if [ $rc -eq 1 ] && [ $nv -gt 0 ]; then res="CAUGHT"; who="$who $cid(violations=$nv sig=$sig)"; else who="$who $cid(rc=$rc)"; fi
+  done
+  echo "$name $res by$who ($TIER)"
   rm -rf "$D"
 done
